@@ -3,16 +3,16 @@ def register(PROPS, HARNESS_PKGS):
     lclasses = '{"ok_new", "notjson", "truncated", "emptybody", "emptylist", "nameless", "duplicates", "wrongtype", "nullentry", "deep", "hugenum", "oversized", "nulbytes"}'
     hclasses = '{"garbage", "hugebody", "nobody", "badchunk", "hdronly", "status999", "longheader"}'
     fields = '{"prompt_eval_count", "eval_count", "total_duration", "eval_duration", "prompt_eval_duration", "usage", "all"}'
-    values = '{"normal", "zero", "negative", "huge", "big", "hugeint", "tiny", "nanstr", "infstr", "null", "bool", "object", "array", "string"}'
+    values = '{"normal", "zero", "negative", "huge", "big", "hugeint", "tiny", "nanstr", "infstr", "null", "bool", "object", "array", "string", "mut1", "mut2", "mut3", "mut4", "mut5", "mut6"}'
 
-    def g(formats, fmt2):
+    def g(formats, mutations):
         return {"module": "Poison", "cfg": "Poison_gen.cfg",
-                "params": {"Classes": lclasses, "HealthClasses": hclasses, "Formats": formats, "Fields": fields, "ValueClasses": values}}
+                "params": {"Mutations": mutations, "Classes": lclasses, "HealthClasses": hclasses, "Formats": formats, "Fields": fields, "ValueClasses": values}}
     cat = {
         "name": "answers",
         "mc": [{"module": "Poison", "cfg": "Poison_mc.cfg"}],
-        "quick": {"gen": [g('{"openai-compatible", "ollama"}', None)]},
-        "thorough": {"gen": [g('{"openai-compatible", "ollama", "vllm", "lm-studio", "llamacpp", "sglang", "litellm", "lemonade"}', None)]},
+        "quick": {"gen": [g('{"openai-compatible", "ollama"}', 30)]},
+        "thorough": {"gen": [g('{"openai-compatible", "ollama", "vllm", "lm-studio", "llamacpp", "sglang", "litellm", "lemonade"}', 120)]},
         "pkg": "internal/app", "test": "TestVerif_Poison",
         "harness_files": ["stack_test.go", "dispatch_test.go", "poison_test.go"],
         "trace": {"module": "PoisonTrace", "cfg": "Poison_trace.cfg"},
@@ -27,12 +27,13 @@ def register(PROPS, HARNESS_PKGS):
         "rule": "TLC enumerates (operation, response class): model listings of 13 hostile classes (not JSON, truncated, "
                 "empty, nameless, duplicates, wrong types, null entries, 20000-deep nesting, 1e999, 12 MiB, NUL bytes) per "
                 "provider listing format, 7 health-answer classes (not HTTP, 8 MiB body, bad chunking, short body, "
-                "2 MiB header), and response tails with every metrics field x 13 value classes per provider; listings "
+                "2 MiB header), seeded byte-level mutations of a well-formed listing (bytes flipped, cut, doubled, inserted; 30 per format quick, 120 thorough), and response tails with every metrics field x 14 value classes (and 6 seeded byte-level mutations of the whole tail) per provider; listings "
                 "and health answers are served to the assembled server by a scripted backend (re-listing triggered by "
                 "a real recovery), after which the catalogue views and a bystander request are recorded; tails go "
                 "through the real extractor with the shipped profiles. Non-trivial = anything but the well-formed class.",
         "exhaustive": True,
-        "assumptions": ["the property's 'whatever bytes' is covered structurally: classes are enumerated, bytes inside a class are seeded instances",
+        "assumptions": ["the property's 'whatever bytes' is covered structurally: classes are enumerated, bytes inside a class are seeded instances; "
+                        "plus seeded random mutations of well-formed listings, for which only no-crash / no-hang / views-agree is demanded",
                         "run with the plain registry: the unified catalogue's stale sources are recorded separately (C09/C10 findings)"],
         # third part: error bodies and broken completions on every route (the Dispatch scenarios of C05, which
         # include 130 KB error pages, non-envelope errors, garbage and resets): the operation must end with a result
